@@ -52,6 +52,13 @@ def _base(n_steps, cheap=False):
         "scope": "agent_propagation", "scope_instance_id": 10001, "start_time": scen.iso(START + timedelta(seconds=2 * DT + 17)),
         "event_type": "impulse", "thrust_vector": [0.0, 1e-3, 0.0], "thrust_frame": "ntw", "planned": False,
     }]
+    # the twin manoeuvres INSIDE ITS FIRST STEP (before any agent has pruned its event queue once), and later performs a
+    # maneuver flagged as planned (known to its filter): neither may reach another agent, and the planned flag is a
+    # matter of the estimate only - the truth performs the maneuver with or without estimation
+    ev.append({"scope": "agent_propagation", "scope_instance_id": 10000, "start_time": scen.iso(START + timedelta(seconds=23)),
+               "event_type": "impulse", "thrust_vector": [0.0, 2e-3, 1e-3], "thrust_frame": "ntw", "planned": False})
+    ev.append({"scope": "agent_propagation", "scope_instance_id": 10000, "start_time": scen.iso(START + timedelta(seconds=3 * DT + 11)),
+               "event_type": "impulse", "thrust_vector": [1e-3, 0.0, -1e-3], "thrust_frame": "eci", "planned": True})
     # two targets added while the run is in progress (their truth dynamics are built by Scenario.addTarget)
     for j, k in ((0, 1), (1, 2)):
         ev.append({
@@ -129,7 +136,7 @@ def _variants(n_steps):
     def single_target_tight(c):
         tight_sp_filter(c)
         c["engines"][0]["targets"] = [t for t in c["engines"][0]["targets"] if t["id"] == 10001]
-        c["events"] = [e for e in c["events"] if e["event_type"] == "impulse"]
+        c["events"] = [e for e in c["events"] if e["event_type"] == "impulse" and e["scope_instance_id"] == 10001]
 
     var("single_target_sp_tight_prior", single_target_tight)
     var("no_background", lambda c: c.update(observation={"background": False, "realtime_observation": True}))
@@ -143,7 +150,11 @@ def _variants(n_steps):
 
     var("extra_target", extra_target)
     var("removed_target", lambda c: c["engines"][0]["targets"].pop(2))
-    var("removed_twin", lambda c: c["engines"][0]["targets"].pop(0))
+    def removed_twin(c):
+        c["engines"][0]["targets"].pop(0)
+        c["events"] = [e for e in c["events"] if e.get("scope_instance_id") != 10000]
+
+    var("removed_twin", removed_twin)
     # other agents' own physical parameters / position in the configuration must not leak into anybody's truth
     var("reordered_targets", lambda c: c["engines"][0]["targets"].reverse())
     var("reordered_sensors", lambda c: c["engines"][0]["sensors"].reverse())
@@ -166,9 +177,14 @@ def _variants(n_steps):
         return scen.iso(START + timedelta(seconds=k * DT))
 
     def ev_remove(agent_id, agent_type, k):
-        return lambda c: c["events"].append({
-            "scope": "scenario_step", "scope_instance_id": 0, "start_time": _at(k), "event_type": "agent_removal",
-            "tasking_engine_id": 1, "agent_id": agent_id, "agent_type": agent_type})
+        def fn(c):
+            # (maneuvers scheduled for the agent after its removal are dropped: an event for an agent that no longer exists
+            # is an inconsistent configuration, not this property's subject)
+            c["events"] = [e for e in c["events"] if not (e.get("scope_instance_id") == agent_id and e["start_time"] >= _at(k))]
+            c["events"].append({
+                "scope": "scenario_step", "scope_instance_id": 0, "start_time": _at(k), "event_type": "agent_removal",
+                "tasking_engine_id": 1, "agent_id": agent_id, "agent_type": agent_type})
+        return fn
 
     var("event_remove_geo_target_step3", ev_remove(10002, "target", 3))
     var("event_remove_twin_step2", ev_remove(10000, "target", 2))
@@ -361,6 +377,10 @@ def run_item(item):
                 "scope": "scenario_step", "scope_instance_id": 0, "start_time": scen.iso(START + timedelta(seconds=2 * DT)),
                 "event_type": "target_addition", "tasking_engine_id": 1, "target_agent": scen.target_eci(10009, x[:3], x[3:]),
             })
+            # ... and it performs the maneuvers 10000 performs after that epoch
+            for e in list(cfg["events"]):
+                if e.get("scope_instance_id") == 10000 and e["event_type"] == "impulse" and e["start_time"] > scen.iso(START + timedelta(seconds=DT)):
+                    cfg["events"].append({**e, "scope_instance_id": 10009})
         tmpdir = None
         if name == "sensors_imported":
             import shutil  # noqa: PLC0415
